@@ -130,7 +130,15 @@ enum NegMode {
 #[derive(Clone, Debug, Serialize, Deserialize)]
 enum Res {
     Pos { recs: Vec<RecSpec> },
-    Neg { nx: bool, mode: NegMode },
+    Neg {
+        nx: bool,
+        mode: NegMode,
+        /// the query carried inside the error is not the one the entry is stored under: another
+        /// type (Direct), or none at all because the upstream reply had no question section
+        /// (FromResponse falls back to a root query). The cache key decides the bounds.
+        #[serde(default)]
+        foreign_query: bool,
+    },
     Transient(Transient),
 }
 
@@ -289,7 +297,7 @@ fn res() -> impl Strategy<Value = Res> {
     ];
     prop_oneof![
         11 => vec(recspec(), 0..=6).prop_map(|recs| Res::Pos { recs }),
-        5 => (any::<bool>(), neg_mode).prop_map(|(nx, mode)| Res::Neg { nx, mode }),
+        5 => (any::<bool>(), neg_mode, prop::bool::weighted(0.2)).prop_map(|(nx, mode, foreign_query)| Res::Neg { nx, mode, foreign_query }),
         4 => prop::sample::select(vec![
             Transient::Timeout,
             Transient::Io,
@@ -561,9 +569,16 @@ fn build_pos(id: u16, q: &Query, qtype: TypeK, recs: &[RecSpec]) -> Message {
     m
 }
 
-fn build_neg(idx: usize, q: &Query, nx: bool, mode: &NegMode) -> Result<Option<NoRecords>, Fail> {
+fn build_neg(idx: usize, q: &Query, foreign_query: bool, nx: bool, mode: &NegMode) -> Result<Option<NoRecords>, Fail> {
     let code = if nx { ResponseCode::NXDomain } else { ResponseCode::NoError };
     let zone = name("example.");
+    // the query inside the error: the asked one, or one of another type
+    let inner = if foreign_query {
+        let other = [RecordType::A, RecordType::AAAA, RecordType::MX, RecordType::TXT].into_iter().find(|t| *t != q.query_type).unwrap_or(RecordType::A);
+        Query::new(q.name.clone(), other)
+    } else {
+        q.clone()
+    };
     match mode {
         NegMode::Direct {
             negative_ttl,
@@ -571,7 +586,7 @@ fn build_neg(idx: usize, q: &Query, nx: bool, mode: &NegMode) -> Result<Option<N
             auth_ttl,
             ns_ttl,
         } => {
-            let mut n = NoRecords::new(q.clone(), code);
+            let mut n = NoRecords::new(inner, code);
             n.negative_ttl = *negative_ttl;
             if let Some(t) = soa_ttl {
                 n.soa = Some(Box::new(Record::from_rdata(zone.clone(), *t, soa_rdata(idx as u32, 300))));
@@ -590,7 +605,9 @@ fn build_neg(idx: usize, q: &Query, nx: bool, mode: &NegMode) -> Result<Option<N
         NegMode::FromResponse { soa, ns_ttl } => {
             let mut m = Message::response(idx as u16, OpCode::Query);
             m.metadata.response_code = code;
-            m.add_query(q.clone());
+            if !foreign_query {
+                m.add_query(q.clone());
+            }
             if let Some((t, minimum)) = soa {
                 m.add_authority(Record::from_rdata(zone.clone(), *t, RData::SOA(soa_rdata(idx as u32, *minimum))));
             }
@@ -635,7 +652,7 @@ fn render(h: &Hist) -> String {
                         "pos[{}]",
                         recs.iter().map(|r| format!("{}:{:?}/{}", r.sec, r.ty, r.ttl)).collect::<Vec<_>>().join(",")
                     ),
-                    Res::Neg { nx, mode } => format!("neg(nx={nx},{mode:?})"),
+                    Res::Neg { nx, mode, foreign_query } => format!("neg(nx={nx},{mode:?}{})", if *foreign_query { ",error-carries-another-query" } else { "" }),
                     Res::Transient(t) => format!("{t:?}"),
                 };
                 s.push_str(&format!(" {st} insert(q{q},{r});"));
@@ -722,7 +739,7 @@ fn body(h: &Hist, rec: &mut Rec) -> CaseResult {
                         let typed: Vec<(u16, u32)> = msg.all_sections().map(|r| (u16::from(r.record_type()), r.ttl)).collect();
                         let life = cref::positive_lifetime(cfg, qtype.code(), &typed);
                         if let Some(l) = life {
-                            readings_differ |= l.lo != l.hi;
+                            readings_differ |= l.alt != l.hi;
                         } else {
                             no_l_entries += 1;
                         }
@@ -746,8 +763,11 @@ fn body(h: &Hist, rec: &mut Rec) -> CaseResult {
                         inserts_pos += 1;
                         nt_reinsert_live |= live_before;
                     }
-                    Res::Neg { nx, mode } => {
-                        let Some(n) = build_neg(i, query, *nx, mode)? else {
+                    Res::Neg { nx, mode, foreign_query } => {
+                        if *foreign_query {
+                            rec.class("negative:error-carries-another-query-than-the-key");
+                        }
+                        let Some(n) = build_neg(i, query, *foreign_query, *nx, mode)? else {
                             rec.discard("from-response-not-negative");
                             return Ok(());
                         };
@@ -1436,7 +1456,7 @@ pub fn check() -> Option<Check> {
             "configurations with min > max (after defaults 0 s / 1 day) are outside the domain: the statement's clamp is undefined there (the implementation panics in clamp)",
             "None from get is always accepted (eviction); hit ratio on certainly-live entries is reported in coverage.counters (histories/live_hits over histories/live_gets)",
             "where the message has no record of the queried type and no CNAME, or a negative answer has no negative TTL, the statement defines no L: only TTL countdown is asserted",
-            "L is asserted against the weaker of two readings (smallest upstream TTL vs smallest per-type-clamped TTL of qtype/CNAME records, then clamped to the query type's bounds)",
+            "L = the smallest stored TTL (each record clamped with the bounds of its own type, as in the statement's 'per-type clamped stored TTL') among the records of the queried type or CNAME, then clamped to the query type's bounds; the reading 'smallest upstream TTL' differs only when CNAME has bounds of its own and is counted as class L-readings-differ, not asserted",
             "TTL values inside a negative answer may be reported from the unclamped or the clamped stored value (statement silent)",
             "ResponseCache::clear is pub(crate); clear is not reachable on a cache with a custom TtlConfig from outside the crate",
         ],
